@@ -16,8 +16,10 @@ def _fractional_matrix_power(C, power, **kwargs):
     svd = _SVD(n_modes="all", **kwargs)
     _, s, V = svd.fit_transform(C)
 
-    # cut off small singular values
-    is_above_zero = s > np.finfo(s.dtype).eps
+    # cut off small singular values (relative to the largest one, as in
+    # np.linalg.pinv / matrix_rank, so that the result does not depend on the
+    # units of the data)
+    is_above_zero = s > s.max() * len(s) * np.finfo(s.dtype).eps
     V = V[:, is_above_zero]
     s = s[is_above_zero]
 
